@@ -447,6 +447,49 @@ func phasesScenario(i *Iface, f *Func, pool int32) *vm.Scenario {
 	return sc
 }
 
+// idleScenario: calls separated by quiet periods longer than the client's idle timeout (2 s): the connection is
+// closed when nothing is outstanding and kept when a one-way call went out on it; whatever the transport does
+// in between, every call reaches the implementation exactly once.
+func idleScenario(i *Iface, f *Func, pool int32, order string) *vm.Scenario {
+	var bad []string
+	sc := &vm.Scenario{Name: fmt.Sprintf("quiet periods beyond the client idle timeout, calls %s pool=%d %s", order, pool, f.Full), MaxSteps: 2000000}
+	sc.Reset = func() { bad = nil }
+	sc.Main = func() {
+		clientIdle = 2 * time.Second
+		sys := setup(i, filterCfg{}, pool)
+		clientIdle = 0
+		var ids []string
+		for n, step := range strings.Split(order, " ") {
+			switch step {
+			case "idle":
+				vm.Sleep(int64(3500 * time.Millisecond))
+			case "oneway", "call":
+				cs := newSpec(f, fmt.Sprintf("q%d", n))
+				cs.oneway = step == "oneway"
+				ids = append(ids, cs.id)
+				sys.runCall(cs, &bad)
+			}
+		}
+		vm.Sleep(int64(3500 * time.Millisecond))
+		for _, id := range ids {
+			if g := sys.sv.got[id]; g == nil || g.count != 1 {
+				c := 0
+				if g != nil {
+					c = g.count
+				}
+				bad = append(bad, fmt.Sprintf("implementation-ran-%d-times:across-a-quiet-period\ncall %s of %q", c, id, order))
+			}
+		}
+	}
+	sc.Check = func(r *vm.Result) string {
+		if m := statusCheck(r); m != "" {
+			return m
+		}
+		return e1.Multi(bad, r.ObsString())
+	}
+	return sc
+}
+
 // Main is called by the generated driver.
 func Main(corpusJSON string) {
 	run := common.Start("C01", "model_checking")
@@ -531,6 +574,15 @@ func Main(corpusJSON string) {
 	}
 	for _, pool := range []int32{0, 1} {
 		cases = append(cases, e1.Case{Sc: phasesScenario(conc[0].If, conc[0], pool), Opt: vm.Options{Bound: 0, StrictDev: true}, Budget: budget, MinOutcomes: 1})
+	}
+	for _, order := range []string{"oneway idle", "oneway call idle call idle", "call idle call oneway idle call idle oneway", "call oneway call idle idle call"} {
+		for _, pool := range []int32{0, 1} {
+			b := 0
+			if order == "oneway call idle call idle" {
+				b = 1
+			}
+			cases = append(cases, e1.Case{Sc: idleScenario(conc[0].If, conc[0], pool, order), Opt: vm.Options{Bound: b, StrictDev: true}, Budget: budget, MinOutcomes: 1})
+		}
 	}
 	if d := os.Getenv("C01_DEBUG"); d != "" {
 		for _, c := range cases {
